@@ -7,7 +7,7 @@ theorems depend on.  A fragment that cannot be found any more raises ExtractErro
 between model and code is then broken and the check reports it (DESIGN.md 2.2 / 2.5).
 Files are only rewritten when their content changes, so an unchanged tree costs no rebuild.
 """
-import os, re, sys
+import hashlib, os, subprocess, re, sys
 
 HERE = os.path.dirname(os.path.abspath(__file__))
 VERIF = os.path.dirname(HERE)
@@ -16,6 +16,60 @@ GEN_DIR = os.path.join(VERIF, 'lean', 'OtelVerif', 'Gen')
 
 class ExtractError(Exception):
     pass
+
+
+class ShapeChanged(ExtractError):
+    """the text the extractor looks for is not there any more (a function was split, a local renamed, a constant spelled
+    differently ...) - nothing is known to have changed in value.  The fragment committed for the unchanged tree is kept, and
+    the check ESCALATES the correspondence run of the property instead of declaring the tie broken (vcore.run_check): the
+    differential run is what shows that the model still mirrors the code; the text pattern was only a cheap proxy for that.
+    An extracted value that DIFFERS still goes into the fragment and breaks the theorems that depend on it, and a pattern
+    that is found but says something else (`unexpected ...`) stays an ExtractError."""
+
+
+def committed_fragment(name):
+    """Gen/<name>.lean as committed in /verif (the values of the tree the models were validated against), else what is on disk"""
+    rel = f'lean/OtelVerif/Gen/{name}.lean'
+    try:
+        r = subprocess.run(['git', '-C', VERIF, 'show', 'HEAD:' + rel], stdout=subprocess.PIPE, stderr=subprocess.DEVNULL)
+        if r.returncode == 0 and r.stdout:
+            return r.stdout.decode('utf-8')
+    except OSError:
+        pass
+    p = os.path.join(VERIF, rel)
+    if os.path.exists(p):
+        with open(p, encoding='utf-8') as f:
+            return f.read()
+    return None
+
+
+def probe(repo, src, sdk_srcs=(), includes=('api/include', 'sdk/include'), flags=()):
+    """OBSERVATIONAL extraction: compile the small program `src` (a path under /verif) together with the repo-relative
+    `sdk_srcs` from the working tree, run it, return its stdout.  The executable is cached under .cache/probe by the hash of
+    the preprocessed translation units, so an unchanged tree costs one preprocessor run.  A value obtained this way does not
+    depend on how the source spells it."""
+    cache = os.path.join(VERIF, '.cache', 'probe')
+    os.makedirs(cache, exist_ok=True)
+    cxx = os.environ.get('VERIF_CXX', 'g++')
+    base = [cxx, '-std=gnu++17', '-O0', '-DOPENTELEMETRY_ABI_VERSION_NO=1'] + list(flags) + ['-I' + os.path.join(repo, i) for i in includes]
+    tus = [os.path.join(VERIF, src)] + [os.path.join(repo, f) for f in sdk_srcs]
+    h = hashlib.sha256(' '.join(base[1:]).encode())
+    for tu in tus:
+        pp = subprocess.run(base + ['-E', '-P', tu], stdout=subprocess.PIPE, stderr=subprocess.PIPE)
+        if pp.returncode != 0:
+            raise ExtractError(f'probe {src}: {os.path.basename(tu)} does not preprocess against the current tree: ' + pp.stderr.decode(errors='replace')[-600:])
+        h.update(pp.stdout)
+    exe = os.path.join(cache, os.path.basename(src).replace('.cc', '') + '-' + h.hexdigest()[:24])
+    if not os.path.exists(exe):
+        tmp = exe + f'.tmp{os.getpid()}'
+        r = subprocess.run(base + tus + ['-pthread', '-o', tmp], stdout=subprocess.PIPE, stderr=subprocess.PIPE)
+        if r.returncode != 0:
+            raise ExtractError(f'probe {src} does not compile against the current tree: ' + r.stderr.decode(errors='replace')[-1200:])
+        os.replace(tmp, exe)
+    r = subprocess.run([exe], stdout=subprocess.PIPE, stderr=subprocess.PIPE, timeout=60)
+    if r.returncode != 0:
+        raise ExtractError(f'probe {src} exited with {r.returncode}: ' + r.stderr.decode(errors='replace')[-600:])
+    return r.stdout.decode('utf-8', errors='replace')
 
 
 def _read(repo, rel):
@@ -36,7 +90,7 @@ def _strip_comments(txt):
 def _one(pattern, txt, what, flags=re.S):
     m = re.search(pattern, txt, flags)
     if not m:
-        raise ExtractError(f'cannot find {what}')
+        raise ShapeChanged(f'cannot find {what}')
     return m
 
 
@@ -220,7 +274,7 @@ def gen_hex(repo):
         m = _one(r'kHex\[\]\s*=\s*"((?:[^"\\]|\\.)*)"', fn, f'kHex table in {rel}')
         tab = _c_string_literal(m.group(1))
         if not re.search(r'>>\s*4\s*\)\s*&\s*0xF', fn) or not re.search(r'>>\s*0\s*\)\s*&\s*0xF', fn):
-            raise ExtractError(f'{rel}: ToLowerBase16 no longer has the (x>>4)&0xF / (x>>0)&0xF shape')
+            raise ShapeChanged(f'{rel}: ToLowerBase16 no longer has the (x>>4)&0xF / (x>>0)&0xF shape')
         out.append(f'/-- `kHex` of `{rel}` -/\ndef {name} : List UInt8 := {lean_bytes(tab)}\n')
     txt = _strip_comments(_read(repo, 'api/include/opentelemetry/trace/propagation/detail/hex.h'))
     m = _one(r'kHexDigits\s*\[\s*256\s*\]\s*=\s*\{(.*?)\}', txt, 'kHexDigits[256]')
@@ -286,6 +340,13 @@ def extract_all(repo, only=None):
         path = os.path.join(GEN_DIR, name + '.lean')
         try:
             content = f(repo)
+        except ShapeChanged as e:
+            keep = committed_fragment(name)
+            if keep is None:
+                errors.append(f'Gen.{name}: {e}')
+                continue
+            errors.append(f'SHAPE Gen.{name}: {e}')
+            content = keep                      # the committed values; the caller escalates the correspondence run
         except ExtractError as e:
             errors.append(f'Gen.{name}: {e}')
             continue
